@@ -153,7 +153,8 @@ def c15(rep, tier, seed):
 
 def c16(rep, tier, seed):
     rep.assumptions += HEAP_ASSUME + ["hash collisions of the 61-bit fingerprint are excluded by the small value palette"]
-    cl = ("fp_value", "outcome")
+    cl = ("fp_value", "outcome", "fp_order")
+    suite_vec.enumerated(rep, "fplaws", cl)
     suite_heap.mc(rep, tier, ["alias", "tables"])
     suite_heap.devs(rep, ["VecFpNotInvalidated", "TableFpMemo"])
     suite_heap.gen(rep, tier, "alias", cl)
@@ -237,6 +238,7 @@ def _producers(rep, tier, seed, clauses=()):
         suite_vec.gen(rep, tier, ["elem", "na", "atype"] + ([] if q else ["slice", "assign"]), clauses),
         suite_table.gen(rep, tier, ["arith", "tassign"] + ([] if q else ["select"]), clauses),
         suite_table.enumerated(rep, "struct", clauses),
+        suite_vec.enumerated(rep, "casts", clauses),
         suite_join.gen(rep, "quick", '{"left","full"}', '{"many_to_many"}', clauses),
         suite_sort.gen(rep, "quick", clauses),
         suite_group.gen(rep, "quick", clauses),
